@@ -238,6 +238,12 @@ def cases(tier, rng):
     for kind, e in F.hazard_programs():
         for o in (OPTS if tier != "quick" else [OPTS[0], OPTS[5], OPTS[7]]):
             yield {"kind": "mech:" + kind, "full": True, "e": e, "opts": list(o), "lisp": F.to_lisp(e)}
+    if tier != "quick":
+        # the importer path (`basilisp run` on a generated file): a sample, each in a child interpreter
+        hp = F.hazard_programs()
+        for kind, e in rng.sample(hp, min(30, len(hp))):
+            yield {"kind": "importer:" + kind, "full": True, "via": "importer", "e": e, "opts": [False, True, True],
+                   "lisp": F.to_lisp(e)}
     n = 400 if tier == "quick" else 8000
     for _ in range(n):
         e = F.random_program(rng)
